@@ -72,7 +72,10 @@ func newLimiter(capacity int64, rates []rateSpec, alts [][]rateSpec) (*limiter, 
 		amount, _ := strconv.ParseInt(req.Header.Get("X-Amount"), 10, 64)
 		return req.Header.Get("X-Source"), amount, nil
 	})
-	opts := []ratelimit.TokenLimiterOption{ratelimit.Capacity(int(capacity))}
+	var opts []ratelimit.TokenLimiterOption
+	if capacity != ratelimit.DefaultCapacity { // the default capacity is exercised as the default: no option
+		opts = append(opts, ratelimit.Capacity(int(capacity)))
+	}
 	if len(alts) > 0 {
 		opts = append(opts, ratelimit.ExtractRates(ratelimit.RateExtractorFunc(func(req *http.Request) (*ratelimit.RateSet, error) {
 			h := req.Header.Get("X-Rates")
